@@ -27,7 +27,7 @@ Inductive ntest : Type :=
 | TStar (pfx : option bytes)
 | TNode                                  (* node() *)
 | TText                                  (* text() *)
-| TAny.                                  (* the node test of the abbreviations "." and ".." (= node()) *)
+| TAny.                                  (* the node test of the abbreviations '.' and '..' (= node()) *)
 
 Inductive cmpop : Type := CEq | CNe | CLt | CLe | CGt | CGe.
 Inductive arop : Type := AAdd | ASub | AMul | ADiv | AMod.
@@ -38,10 +38,10 @@ Inductive fn : Type :=
 | FNumber | FSum | FFloor | FCeiling | FRound | FCurrent.
 
 Inductive expr : Type :=
-| ERoot                                                       (* the root node: "/" *)
+| ERoot                                                       (* the root node: '/' *)
 | ECtx                                                        (* the context node: start of a relative path *)
 | EStep (base : expr) (ds : bool) (ax : axis) (nt : ntest) (ps : preds)
-                                                              (* base "/" step, or base "//" step when ds *)
+                                                              (* base '/' step, or base '//' step when ds *)
 | EFilter (e : expr) (ps : preds)                             (* PrimaryExpr Predicate+ *)
 | EOr (a b : expr)
 | EAnd (a b : expr)
@@ -68,7 +68,7 @@ Inductive value : Type :=
 (* one switch per construct in which src/xpath.c departs from the recommendation *)
 Record flags : Type := {
   f_prec : Z;             (* mantissa bits: 53 IEEE double; 64 long double (struct lyxp_set val.num) *)
-  f_n2s : bool;           (* lyxp_set_cast(): number -> string with "%lld" / "%03.1Lf" *)
+  f_n2s : bool;           (* lyxp_set_cast(): number -> string with '%lld' / '%03.1Lf' *)
   f_s2n : bool;           (* cast_string_to_number(): strtold() *)
   f_floor : bool;         (* xpath_floor/xpath_ceiling/xpath_round: (long long) casts *)
   f_bytes : bool;         (* xpath_string_length/xpath_substring/xpath_translate count bytes *)
@@ -77,9 +77,9 @@ Record flags : Type := {
   f_predglobal : bool;    (* eval_predicate(): positions count over the whole step result, not per context node *)
   f_following : bool;     (* moveto_axis_node_next_first(): following starts at the next sibling only *)
   f_preceding : bool;     (* ...: preceding needs a previous sibling and then includes the ancestors *)
-  f_rootstar : bool;      (* moveto_node_check(): the root matches "*" *)
+  f_rootstar : bool;      (* moveto_node_check(): the root matches '*' *)
   f_text : bool;          (* text nodes exist only as the result of child::text() on term nodes *)
-  f_dslash : bool;        (* eval_node_type_with_predicate(): "//" before node() / text() is ignored *)
+  f_dslash : bool;        (* eval_node_type_with_predicate(): '//' before node() / text() is ignored *)
   f_assert : bool;        (* moveto_node(): assert(!set_sort(set)) on child/self steps from nested context nodes *)
   f_crash : bool;         (* get_node_pos(): restart of the search with a stale iterator (SIGSEGV) *)
   f_cmpbool : bool;       (* moveto_op_comp(): node-set vs boolean compared item by item *)
@@ -91,7 +91,9 @@ Record flags : Type := {
                              empty node-set instead of an error for node() (xpath_pi_node) *)
   f_alldup : bool;        (* moveto_node_alldesc_child(): a node that is also a start node is inserted twice *)
   f_skip : bool;          (* xpath_pi_node() ignores LYXP_SKIP_EXPR: a skipped operand of or/and containing
-                             "//" + a non-child axis + a name test empties the accumulated result *)
+                             '//' + a non-child axis + a name test empties the accumulated result *)
+  f_fastpos : bool;       (* the key lookup is also used when the value expression calls position() or last(): they are
+                             evaluated once, in a context of size 1 *)
   f_texthash : bool       (* xpath_pi_text() retypes set items without updating the set's hash table (present from
                              4 items on); the consistency assert of set_sort() fails at the next predicate *)
 }.
@@ -100,13 +102,13 @@ Definition spec_flags : flags :=
   {| f_prec := 53; f_n2s := false; f_s2n := false; f_floor := false; f_bytes := false; f_strval := false;
      f_predtrunc := false; f_predglobal := false; f_following := false; f_preceding := false; f_rootstar := false;
      f_text := false; f_dslash := false; f_assert := false; f_crash := false; f_cmpbool := false; f_canon := false;
-     f_fast := false; f_nsaxis := false; f_attrnode := false; f_nonset := false; f_alldup := false; f_skip := false; f_texthash := false |}.
+     f_fast := false; f_nsaxis := false; f_attrnode := false; f_nonset := false; f_alldup := false; f_skip := false; f_fastpos := false; f_texthash := false |}.
 
 Definition impl_flags : flags :=
   {| f_prec := 64; f_n2s := true; f_s2n := true; f_floor := true; f_bytes := true; f_strval := true;
      f_predtrunc := true; f_predglobal := true; f_following := true; f_preceding := true; f_rootstar := true;
      f_text := true; f_dslash := true; f_assert := true; f_crash := true; f_cmpbool := true; f_canon := true;
-     f_fast := true; f_nsaxis := true; f_attrnode := true; f_nonset := true; f_alldup := true; f_skip := true; f_texthash := true |}.
+     f_fast := true; f_nsaxis := true; f_attrnode := true; f_nonset := true; f_alldup := true; f_skip := true; f_fastpos := true; f_texthash := true |}.
 
 (* error classes *)
 Definition E_TYPE : N := 7.        (* LY_EVALID: wrong operand / argument type, unknown function, wrong arity *)
@@ -421,10 +423,26 @@ Definition cmp_values (fl : flags) (t : list xnode) (op : cmpop) (a b : value) :
   | VSet l, VStr s => cmp_set_str fl t op l s
   | VStr s, VSet l => cmp_set_str fl t (flip_op op) l s
   | VSet l, VBool bb =>
-      if f_cmpbool fl then existsb (fun _ => cmp_atomic fl t op (VBool true) (VBool bb)) l
+      if f_cmpbool fl then
+        (* as coded: item by item; a relational operator casts the boolean operand to a number for good, so only
+           the first node is compared as boolean(node) and the following ones as number(node) *)
+        if is_relational op then
+          match l with
+          | [] => false
+          | _ :: r => cmp_num op (bool_to_num true) (bool_to_num bb) ||
+                      existsb (fun it => cmp_num op (s2n fl (string_value fl t it)) (bool_to_num bb)) r
+          end
+        else existsb (fun _ => cmp_bool op true bb) l
       else cmp_atomic fl t op (VBool (to_bool a)) (VBool bb)
   | VBool bb, VSet l =>
-      if f_cmpbool fl then existsb (fun _ => cmp_atomic fl t op (VBool bb) (VBool true)) l
+      if f_cmpbool fl then
+        if is_relational op then
+          match l with
+          | [] => false
+          | _ :: r => cmp_num op (bool_to_num bb) (bool_to_num true) ||
+                      existsb (fun it => cmp_num op (bool_to_num bb) (s2n fl (string_value fl t it))) r
+          end
+        else existsb (fun _ => cmp_bool op bb true) l
       else cmp_atomic fl t op (VBool bb) (VBool (to_bool b))
   | _, _ => cmp_atomic fl t op a b
   end.
@@ -485,36 +503,36 @@ Fixpoint nca_of (e : expr) (n : bool) : bool :=
   end.
 
 (* a value expression whose result cannot depend on the context node (the fast path evaluates it once) *)
-Fixpoint closed_expr (e : expr) : bool :=
+Fixpoint closed_expr (pos : bool) (e : expr) : bool :=
   match e with
   | ELit _ | ENum _ => true
-  | EFun0 f => match f with FTrue | FFalse => true | _ => false end
+  | EFun0 f => match f with FTrue | FFalse => true | FLast | FPosition => pos | _ => false end
   | EFun1 f a => match f with
-                 | FString | FNumber | FBoolean | FNot | FFloor | FCeiling | FRound | FStrLen | FNormSpace => closed_expr a
+                 | FString | FNumber | FBoolean | FNot | FFloor | FCeiling | FRound | FStrLen | FNormSpace => closed_expr pos a
                  | _ => false
                  end
   | EFun2 f a b => match f with
-                   | FConcat | FStartsWith | FContains | FSubBefore | FSubAfter | FSubstring => closed_expr a && closed_expr b
+                   | FConcat | FStartsWith | FContains | FSubBefore | FSubAfter | FSubstring => closed_expr pos a && closed_expr pos b
                    | _ => false
                    end
   | EFun3 f a b c => match f with
-                     | FSubstring | FTranslate => closed_expr a && closed_expr b && closed_expr c
+                     | FSubstring | FTranslate => closed_expr pos a && closed_expr pos b && closed_expr pos c
                      | _ => false
                      end
-  | EArith _ a b | ECmp _ a b => closed_expr a && closed_expr b
-  | ENeg a => closed_expr a
+  | EArith _ a b | ECmp _ a b => closed_expr pos a && closed_expr pos b
+  | ENeg a => closed_expr pos a
   | _ => false
   end.
 
 (* the leading predicates [k1=v1][k2=v2].. for the keys in schema order: value expressions and the rest *)
-Fixpoint key_preds (mod_ : bytes) (keys : list bytes) (ps : preds) : option (list expr * preds) :=
+Fixpoint key_preds (pos : bool) (mod_ : bytes) (keys : list bytes) (ps : preds) : option (list expr * preds) :=
   match keys with
   | [] => Some ([], ps)
   | k :: keys' =>
       match ps with
       | PCons (ECmp CEq (EStep ECtx false AxChild (TName pfx nm) PNil) rhs) r =>
-          if beq_bytes nm k && match pfx with Some p => beq_bytes p mod_ | None => true end && closed_expr rhs then
-            match key_preds mod_ keys' r with
+          if beq_bytes nm k && match pfx with Some p => beq_bytes p mod_ | None => true end && closed_expr pos rhs then
+            match key_preds pos mod_ keys' r with
             | Some (vs, rest) => Some (rhs :: vs, rest)
             | None => None
             end
@@ -549,7 +567,7 @@ with uses_ns_p (ps : preds) : bool :=
   | PCons p r => uses_ns p || uses_ns_p r
   end.
 
-(* as coded: a step "//" + axis other than child/attribute + name test anywhere in e: parsing it in skip mode
+(* as coded: a step '//' + axis other than child/attribute + name test anywhere in e: parsing it in skip mode
    calls xpath_pi_node(), which frees the set it is given *)
 Fixpoint skip_clobbers (e : expr) : bool :=
   match e with
@@ -653,8 +671,8 @@ Section Eval.
     filter (fun m => existsb (fun c => axis_rel fl ax c m && node_test fl nt c m) S) (all_items t).
 
   (* as coded: moveto_node_alldesc_child() - from every child c1 of the context nodes a DFS collects the matching
-     nodes; below a matching node that is itself one of the start nodes the DFS does not descend (it is "processed
-     later"), but that node has been inserted already and is inserted again as a start node *)
+     nodes; below a matching node that is itself one of the start nodes the DFS does not descend (it is 'processed
+     later'), but that node has been inserted already and is inserted again as a start node *)
   Definition alldesc_coded (nt : ntest) (C1 : list item) : list item :=
     flat_map (fun st =>
       match st with
@@ -681,7 +699,7 @@ Section Eval.
       | AxChild, TName _ _, IElem n0 :: _ =>
           match ni_kind (x_info n0), ni_keys (x_info n0) with
           | KList, k0 :: krest =>
-              match key_preds (ni_mod (x_info n0)) (k0 :: krest) ps with
+              match key_preds (f_fastpos fl) (ni_mod (x_info n0)) (k0 :: krest) ps with
               | Some _ => Some (n0, k0 :: krest)
               | None => None
               end
@@ -690,7 +708,7 @@ Section Eval.
       | _, _, _ => None
       end.
 
-  (* one step "base/axis::test[preds]" (or "base//...") from the context set S0.
+  (* one step 'base/axis::test[preds]' (or 'base//...') from the context set S0.
      [ap nca rv skip l] applies the predicates of the step to the candidate list l (eval's apply_preds);
      [fastp] / [fastv] are the as-coded key lookup of the step (fast_pre, fast_vals). *)
   Definition step_body (nca0 : bool) (S0 : list item) (ds : bool) (ax : axis) (nt : ntest) (has_preds : bool)
@@ -703,7 +721,7 @@ Section Eval.
       (if f_attrnode fl && match nt with TNode => true | _ => false end && match S0 with [] => false | _ => true end
        then Err E_ASSERT else Ok (VSet []))
     else
-      (* "//" = /descendant-or-self::node()/ ; as coded ignored before a node type test, and before a
+      (* '//' = /descendant-or-self::node()/ ; as coded ignored before a node type test, and before a
          name test on the child axis done by moveto_node_alldesc_child() which first moves to the children *)
       let is_type := match nt with TNode | TText => true | _ => false end in
       let ds_eff := ds && negb (f_dslash fl && is_type) in
@@ -786,7 +804,7 @@ Section Eval.
         bind (eval cx a) (fun va => if to_bool va then (if f_skip fl && skip_clobbers b then Ok (VSet []) else Ok (VBool true))
                                     else bind (eval cx b) (fun vb => Ok (VBool (to_bool vb))))
     | EAnd a b =>
-        (* a chain "x and y and z" is EAnd (EAnd x y) z and is evaluated operand by operand on one result set: when
+        (* a chain 'x and y and z' is EAnd (EAnd x y) z and is evaluated operand by operand on one result set: when
            (as coded) a skipped operand emptied that set, it is no longer the boolean false and the next operand is
            evaluated *)
         bind (eval cx a) (fun va =>
